@@ -12,6 +12,8 @@ func genMap(c *Ctx) {
 	lookupTable(c)
 	// signatures are identical only if every type text carries the right qualifier
 	destinationTables(c)
+	// ... and distinct packages get distinct imports and qualifiers
+	importTables(c)
 }
 
 func genGeneric(c *Ctx) {
@@ -38,6 +40,9 @@ func genMocks(c *Ctx) {
 func genCompile(c *Ctx) {
 	gen.CheckKinds(c.Run, c.Prog)
 	kindsTable(c)
+	// the path an import is registered and printed under is the package's own (vendor prefix stripped,
+	// nothing else): otherwise the import spec names a package that does not exist
+	destinationTables(c)
 	gen.CheckImports(c.Run, c.Prog)
 	importTables(c)
 	// the names moq invents for unnamed parameters are identifiers (what they are is C09's business)
